@@ -342,7 +342,13 @@ Section FoundAgain.
 Variables h h' : host.
 Variable p : npath.
 Variable l l' : list str.
-Variables n n' c : str.
+Variable defext : str.             (* [] for data files, BAS for program files *)
+Variables w w' c : str.            (* the names as written in the statements *)
+(* no leading blanks; n, n' := the names after stripping trailing blanks and applying the default extension *)
+Hypothesis Hlead : seqb w (lstrip w) = true.
+Hypothesis Hlead' : seqb w' (lstrip w') = true.
+Let n := defext_name w defext.
+Let n' := defext_name w' defext.
 (* the name given at creation and the name used later: legal DOS names equal up to letter case *)
 Hypothesis Hne : n <> [].
 Hypothesis Hs : is_special n = false.
@@ -350,7 +356,7 @@ Hypothesis HL : dos_is_legal_name n = true.
 Hypothesis HL' : dos_is_legal_name n' = true.
 Hypothesis Hcase : upper n' = upper n.
 (* creation: resolution with create = true returned c, which did not exist before *)
-Hypothesis Hcreated : snd (get_native_name h p n [] false true) = Ok c.
+Hypothesis Hcreated : snd (get_native_name h p w defext false true) = Ok c.
 Hypothesis Hnew : h_isfile h (pjoin p c) = false.
 (* FS contract: the directory listing shows the files, and after creation exactly c has been added *)
 Hypothesis Hlist : h_listdir h p = Ok l.
@@ -361,17 +367,15 @@ Hypothesis Hfile' : forall x, h_isfile h' (pjoin p x) = h_isfile h (pjoin p x) |
 Lemma fa_special' : is_special n' = false.
 Proof. rewrite <- upper_special, Hcase, upper_special. exact Hs. Qed.
 Lemma fa_ne' : n' <> [].
-Proof. intro X. subst n'. simpl in Hcase. symmetry in Hcase. apply upper_nil in Hcase. contradiction. Qed.
+Proof. intro X. rewrite X in Hcase. simpl in Hcase. symmetry in Hcase. apply upper_nil in Hcase. contradiction. Qed.
 
-Theorem found_again : snd (get_native_name h' p n' [] false false) = Ok c.
+Theorem found_again_ext : snd (get_native_name h' p w' defext false false) = Ok c.
 Proof.
   pose proof fa_special' as Hs'. pose proof fa_ne' as Hne'.
   (* creation *)
-  destruct (legal_no_blanks n Hne Hs HL) as [LS RS].
-  destruct (legal_no_blanks n' Hne' Hs' HL') as [LS' RS'].
   assert (Nist : ist h p c false = false) by (unfold ist; destruct (mem 0 c); [reflexivity | exact Hnew]).
   pose proof Hcreated as Hc. rewrite snd_gnn in Hc. unfold gnn_res in Hc.
-  rewrite defext_none, RS, LS, seqb_refl in Hc. simpl in Hc.
+  rewrite Hlead in Hc. simpl in Hc. fold n in Hc.
   rewrite (legal_not_bad n Hne Hs HL) in Hc.
   destruct (base_name_facts n Hne Hs HL) as (Bne & Bs & BL & Bn).
   destruct (base_name_facts n' Hne' Hs' HL') as (Bne' & Bs' & BL' & Bn').
@@ -405,7 +409,7 @@ Proof.
   { intros x Lx Sx Nx. destruct (legal_plain x Sx Lx) as (_ & _ & X0 & _ & _).
     unfold ist. rewrite X0, Hfile'. destruct (h_isfile h (pjoin p x)) eqn:F; [exfalso; eapply Hexact; eassumption | reflexivity]. }
   (* lookup *)
-  rewrite snd_gnn. unfold gnn_res. rewrite defext_none, RS', LS', seqb_refl. simpl.
+  rewrite snd_gnn. unfold gnn_res. rewrite Hlead'. simpl. fold n'.
   rewrite (legal_not_bad n' Hne' Hs' HL').
   destruct (legal_plain n' Hs' HL') as (_ & Un' & _ & _ & _).
   destruct (legal_plain (base_name n') Bs' BL') as (_ & Ub' & _ & _ & _).
@@ -425,6 +429,82 @@ Proof.
     intro Z0. subst r. simpl in Er. subst n'. apply is_special_false in Hs'. unfold s_dot, c_dot in Hs'. tauto.
 Qed.
 End FoundAgain.
+
+(* upper-casing commutes with blank stripping and with the default extension *)
+Lemma is_ws_upc c : is_ws (upc c) = is_ws c.
+Proof.
+  unfold is_ws, upc. destruct ((97 <=? c) && (c <=? 122)) eqn:Q; [|reflexivity].
+  apply andb_true_iff in Q as [Q1 Q2]. apply Z.leb_le in Q1, Q2.
+  replace (c - 32 =? 32) with false by (symmetry; apply Z.eqb_neq; lia).
+  replace (c =? 32) with false by (symmetry; apply Z.eqb_neq; lia).
+  replace (c - 32 <=? 13) with false by (symmetry; apply Z.leb_gt; lia).
+  replace (c <=? 13) with false by (symmetry; apply Z.leb_gt; lia).
+  rewrite !andb_false_r. reflexivity.
+Qed.
+
+Lemma upper_lstrip s : upper (lstrip s) = lstrip (upper s).
+Proof.
+  induction s as [|c s IH]; [reflexivity|]. simpl. rewrite is_ws_upc. destruct (is_ws c); [exact IH | reflexivity].
+Qed.
+
+Lemma upper_rstrip s : upper (rstrip s) = rstrip (upper s).
+Proof. unfold rstrip. rewrite upper_rev, upper_lstrip, upper_rev. reflexivity. Qed.
+
+Lemma upper_defext a b d : upper a = upper b -> upper (defext_name a d) = upper (defext_name b d).
+Proof.
+  intro H. unfold defext_name.
+  assert (R : upper (rstrip a) = upper (rstrip b)) by (rewrite !upper_rstrip, H; reflexivity).
+  assert (M : mem c_dot (rstrip a) = mem c_dot (rstrip b)) by (rewrite <- (mem_upper_dot (rstrip a)), <- (mem_upper_dot (rstrip b)), R; reflexivity).
+  destruct d as [|x d]; [exact R|]. rewrite M. destruct (mem c_dot (rstrip b)); [exact R|].
+  rewrite !upper_app, R. reflexivity.
+Qed.
+
+Lemma lstrip_same_case a b : upper a = upper b -> seqb a (lstrip a) = true -> seqb b (lstrip b) = true.
+Proof.
+  intros H E. apply seqb_eq in E. apply seqb_eq.
+  destruct b as [|y b']; [reflexivity|]. destruct a as [|x a']; [discriminate|].
+  simpl in H. injection H as Hx _. simpl in E. simpl.
+  destruct (is_ws x) eqn:W.
+  - exfalso. assert (Len : (length (lstrip a') <= length a')%nat).
+    { clear. induction a' as [|z a IH]; simpl; [lia|]. destruct (is_ws z); simpl; lia. }
+    rewrite <- E in Len. simpl in Len. lia.
+  - rewrite <- (is_ws_upc y), <- Hx, is_ws_upc, W. reflexivity.
+Qed.
+
+(* data files: the names themselves are legal DOS names *)
+Theorem found_again (h h' : host) p l n n' c :
+  n <> [] -> is_special n = false -> dos_is_legal_name n = true -> dos_is_legal_name n' = true ->
+  upper n' = upper n ->
+  snd (get_native_name h p n [] false true) = Ok c -> h_isfile h (pjoin p c) = false ->
+  h_listdir h p = Ok l -> (forall x, h_isfile h (pjoin p x) = true -> In x l) ->
+  (forall x, h_isfile h' (pjoin p x) = h_isfile h (pjoin p x) || seqb x c) ->
+  snd (get_native_name h' p n' [] false false) = Ok c.
+Proof.
+  intros Hne Hs HL HL' Hcase Hc Hnew Hl Hshown Hfile'.
+  assert (Hs' : is_special n' = false) by (rewrite <- upper_special, Hcase, upper_special; exact Hs).
+  assert (Hne' : n' <> []) by (intro X; subst n'; simpl in Hcase; symmetry in Hcase; apply upper_nil in Hcase; contradiction).
+  destruct (legal_no_blanks n Hne Hs HL) as [LS RS]. destruct (legal_no_blanks n' Hne' Hs' HL') as [LS' RS'].
+  apply (found_again_ext h h' p l [] n n' c); rewrite ?defext_none, ?RS, ?RS', ?LS, ?LS'; try assumption; apply seqb_refl.
+Qed.
+
+(* program files (LOAD, SAVE, RUN, CHAIN, MERGE, BLOAD, BSAVE: default extension BAS): the names as written
+   differ only in letter case; what must be a legal DOS name is the name with the extension applied
+   (PROG -> PROG.BAS, PROG. -> PROG., prog.bas -> prog.bas) *)
+Theorem found_again_bas (h h' : host) p l r r' c :
+  seqb r (lstrip r) = true -> upper r' = upper r ->
+  defext_name r s_BAS <> [] -> is_special (defext_name r s_BAS) = false ->
+  dos_is_legal_name (defext_name r s_BAS) = true -> dos_is_legal_name (defext_name r' s_BAS) = true ->
+  snd (get_native_name h p r s_BAS false true) = Ok c -> h_isfile h (pjoin p c) = false ->
+  h_listdir h p = Ok l -> (forall x, h_isfile h (pjoin p x) = true -> In x l) ->
+  (forall x, h_isfile h' (pjoin p x) = h_isfile h (pjoin p x) || seqb x c) ->
+  snd (get_native_name h' p r' s_BAS false false) = Ok c.
+Proof.
+  intros Hlead Hcase Hne Hs HL HL' Hc Hnew Hl Hshown Hfile'.
+  apply (found_again_ext h h' p l s_BAS r r' c); try assumption.
+  - apply (lstrip_same_case r r'); [symmetry; exact Hcase | exact Hlead].
+  - apply upper_defext. exact Hcase.
+Qed.
+
 
 (* ---------- FILES entries ---------- *)
 Lemma find_first_unique {A} (f : A -> bool) l x : In x l -> f x = true ->
@@ -558,3 +638,251 @@ Qed.
 Theorem display_name_legal_iff f : is_ascii f = true -> dos_is_legal_name f = true ->
   display_name f = dos_normalise_name f /\ upper (display_name f) = display_name f.
 Proof. intros A L. rewrite display_legal by assumption. split; [reflexivity | apply upper_normalise]. Qed.
+
+(* ---------- FILES entries, continued: without the uniqueness assumption; the + marker; legal entries ---------- *)
+Lemma find_exists {A} (f : A -> bool) l x : In x l -> f x = true -> exists y, find f l = Some y.
+Proof.
+  induction l as [|z r IH]; simpl; intros I F; [contradiction|].
+  destruct (f z) eqn:E; [eexists; reflexivity|].
+  destruct I as [I|I]; [subst; congruence | apply IH; assumption].
+Qed.
+
+Section FilesEntryAny.
+Variable h : host.
+Variable p : npath.
+Variable l : list str.
+Variable f : str.
+Hypothesis Hlist : h_listdir h p = Ok l.
+Hypothesis Hin : In f l.
+Hypothesis Hfile : h_isfile h (pjoin p f) = true.
+Hypothesis Hne : f <> [].
+Hypothesis Hs : is_special f = false.
+Hypothesis Ha : is_ascii f = true.
+Hypothesis HL : dos_is_legal_name f = true.
+
+(* a legal FILES entry always opens a file of the directory that is shown under that very entry: the only way it
+   can fail to be f itself is a collision - another file g <> f with display_name g = display_name f *)
+Theorem files_entry_opens_some : exists g,
+  snd (get_native_name h p (display_name f) [] false false) = Ok g /\
+  h_isfile h (pjoin p g) = true /\ display_name g = display_name f.
+Proof.
+  rewrite (display_legal f Ha HL). set (dn := dos_normalise_name f).
+  assert (Ds : is_special dn = false) by (apply norm_not_special; exact Hs).
+  assert (DL : dos_is_legal_name dn = true) by (apply legal_norm_legal; assumption).
+  assert (Dne : dn <> []) by (apply (safe_norm f Hne Hs DL)).
+  destruct (legal_no_blanks dn Dne Ds DL) as [LS RS].
+  destruct (legal_plain dn Ds DL) as (Da & Du & D0 & _ & _).
+  destruct (legal_plain f Hs HL) as (_ & _ & F0 & _ & _).
+  assert (Dn : dos_normalise_name dn = dn) by apply normalise_idempotent.
+  assert (Hesd : ends_single_dot dn = false).
+  { destruct (ends_single_dot dn) eqn:E; [|reflexivity]. exfalso.
+    apply ends_single_dot_spec in E as [r [Er Hr]].
+    pose proof (legal_norm_parts f Hs DL) as [_ Pe].
+    unfold dn in Er. rewrite normalise_parts in Er by exact Hs.
+    destruct (snd (norm_parts f)) as [|x e] eqn:Q.
+    - simpl in Er. rewrite app_nil_r in Er. apply (norm_parts_nodot f). rewrite Er. apply in_or_app. right. left. reflexivity.
+    - destruct (last_split (x :: e)) as [X|[r' [z X]]]; [discriminate|].
+      unfold dot_ext in Er. rewrite X in Er.
+      replace (fst (norm_parts f) ++ c_dot :: r' ++ [z]) with ((fst (norm_parts f) ++ c_dot :: r') ++ [z]) in Er
+        by (rewrite <- app_assoc; reflexivity).
+      apply app_inj_tail in Er as [_ Ez]. subst z.
+      assert (A : allowable c_dot = true) by (apply Pe; rewrite X; apply in_or_app; right; left; reflexivity).
+      vm_compute in A. discriminate. }
+  rewrite snd_gnn. unfold gnn_res. rewrite defext_none, RS, LS, seqb_refl. simpl.
+  rewrite (legal_not_bad dn Dne Ds DL), Hesd.
+  unfold core_res. rewrite Du.
+  destruct (ist h p dn false) eqn:E.
+  - exists dn. unfold ist in E. rewrite D0 in E. repeat split; [exact E|].
+    rewrite (display_legal dn Da DL). exact Dn.
+  - rewrite Dn, DL. simpl. unfold d2n_res. rewrite Da, E, Hlist. simpl.
+    assert (Cf : cand h p dn false f = true).
+    { unfold cand, ist. rewrite Ha, HL, F0, Hfile. unfold dn. rewrite seqb_refl. reflexivity. }
+    destruct (find_exists (cand h p dn false) (sort_str l) f) as [g Hg]; [apply sort_by_In; exact Hin | exact Cf|].
+    rewrite Hg. pose proof (find_some _ _ Hg) as [_ Cg]. unfold cand in Cg.
+    apply andb_true_iff in Cg as [Cg G4]. apply andb_true_iff in Cg as [Cg G3].
+    apply andb_true_iff in Cg as [G1 G2]. apply seqb_eq in G3.
+    assert (Gf : h_isfile h (pjoin p g) = true) by (unfold ist in G4; destruct (mem 0 g); [discriminate | exact G4]).
+    destruct g as [|x g'].
+    + exfalso. change (dos_normalise_name []) with (@nil Z) in G3. symmetry in G3. contradiction.
+    + exists (x :: g'). repeat split; [exact Gf|]. rewrite (display_legal _ G1 G2). exact G3.
+Qed.
+End FilesEntryAny.
+
+(* --- the + marker and legality of entries --- *)
+Definition clip_t (t : str) : str := if Nat.ltb 8 (length t) then firstn 7 t ++ [43] else t.
+Definition clip_e (e : str) : str := if Nat.ltb 3 (length e) then firstn 2 e ++ [43] else e.
+
+Lemma display_other f : is_ascii f && dos_is_legal_name f = false ->
+  display_name f =
+  let '(t, e) := dos_splitext (to_cp f) in
+  clip_t t ++ match clip_e e, clip_t t with _ :: _, _ => [c_dot] | [], [] => [c_dot] | [], _ :: _ => [] end ++ clip_e e.
+Proof. intro H. unfold display_name. rewrite H. destruct (dos_splitext (to_cp f)). reflexivity. Qed.
+
+(* an overlong trunk or extension of a name that is not a legal DOS name is marked with + *)
+Theorem overlong_marked f : is_ascii f && dos_is_legal_name f = false ->
+  (8 < length (fst (dos_splitext (to_cp f))) \/ 3 < length (snd (dos_splitext (to_cp f))))%nat ->
+  In 43 (display_name f).
+Proof.
+  intros H O. rewrite (display_other f H). destruct (dos_splitext (to_cp f)) as [t e]. simpl in O.
+  destruct O as [O|O].
+  - apply in_or_app. left. unfold clip_t. apply Nat.ltb_lt in O. rewrite O. apply in_or_app. right. left. reflexivity.
+  - apply in_or_app. right. apply in_or_app. right. unfold clip_e. apply Nat.ltb_lt in O. rewrite O.
+    apply in_or_app. right. left. reflexivity.
+Qed.
+
+(* code points whose code-page image is an allowable character or a dot although they are not that character:
+   on the default code page exactly U+1FEF (-> `) and U+212A KELVIN SIGN (-> K) *)
+Definition cp_clean (f : str) : Prop :=
+  forall u, In u f -> (allowable (u2c u) = true \/ u2c u = c_dot) -> u2c u = u.
+
+Lemma assoc_In k l b : assoc k l = Some b -> In (k, b) l.
+Proof.
+  induction l as [|[a x] r IH]; simpl; [discriminate|].
+  destruct (a =? k) eqn:E; [apply Z.eqb_eq in E; intro H; inversion H; subst; left; reflexivity | intro H; right; apply IH, H].
+Qed.
+
+Lemma cp_clean_default f : ~ In 8175 f -> ~ In 8490 f -> cp_clean f.
+Proof.
+  intros N1 N2 u I H. unfold u2c in *. destruct (assoc u dn_u2c) as [b|] eqn:E.
+  - apply assoc_In in E.
+    assert (F : forallb (fun ub => implb (allowable (snd ub) || (snd ub =? c_dot))
+                                   ((fst ub =? snd ub) || (fst ub =? 8175) || (fst ub =? 8490))) dn_u2c = true)
+      by (vm_compute; reflexivity).
+    rewrite forallb_forall in F. specialize (F _ E). simpl in F.
+    assert (P : allowable b || (b =? c_dot) = true).
+    { destruct H as [H|H]; [rewrite H; reflexivity | rewrite H, Z.eqb_refl; apply orb_true_r]. }
+    rewrite P in F. simpl in F. apply orb_true_iff in F as [F|F]; [apply orb_true_iff in F as [F|F]|].
+    + apply Z.eqb_eq in F. symmetry. exact F.
+    + apply Z.eqb_eq in F. subst u. contradiction.
+    + apply Z.eqb_eq in F. subst u. contradiction.
+  - destruct H as [H|H]; [vm_compute in H; discriminate | discriminate].
+Qed.
+
+Lemma clip_t_nil t : clip_t t = [] -> t = [].
+Proof. unfold clip_t. destruct (Nat.ltb 8 (length t)); [intro H; apply app_eq_nil in H as [_ H]; discriminate | auto]. Qed.
+Lemma clip_e_nil e : clip_e e = [] -> e = [].
+Proof. unfold clip_e. destruct (Nat.ltb 3 (length e)); [intro H; apply app_eq_nil in H as [_ H]; discriminate | auto]. Qed.
+Lemma clip_t_nodot t : ~ In c_dot t -> ~ In c_dot (clip_t t).
+Proof.
+  unfold clip_t. intros H. destruct (Nat.ltb 8 (length t)); [|exact H].
+  intro I. apply in_app_or in I as [I|[I|[]]]; [apply H; eapply In_firstn; exact I | discriminate].
+Qed.
+Lemma clip_e_dot e : clip_e e = [c_dot] -> e = [c_dot].
+Proof.
+  unfold clip_e. destruct (Nat.ltb 3 (length e)) eqn:Q; [|auto].
+  intro H. apply (f_equal (@length Z)) in H. rewrite app_length in H. simpl in H.
+  apply Nat.ltb_lt in Q. rewrite firstn_length in H. lia.
+Qed.
+
+Lemma to_cp_In b f : In b (to_cp f) -> exists u, In u f /\ u2c u = b.
+Proof. unfold to_cp. intro H. apply in_map_iff in H as [u [E I]]. exists u. tauto. Qed.
+
+Lemma to_cp_id f : (forall u, In u f -> u2c u = u) -> to_cp f = f.
+Proof.
+  induction f as [|u r IH]; intro H; [reflexivity|]. simpl. rewrite (H u (or_introl eq_refl)). f_equal.
+  apply IH. intros v I. apply H. right. exact I.
+Qed.
+
+(* every code-page image is an allowable character or a dot *)
+Definition plain (f : str) : Prop := forall b, In b (to_cp f) -> allowable b = true \/ b = c_dot.
+
+Lemma plain_id f : cp_clean f -> plain f -> is_ascii f = true /\ to_cp f = f.
+Proof.
+  intros Hc Hall. assert (Id : forall u, In u f -> u2c u = u).
+  { intros u I. apply Hc; [exact I|]. apply Hall. unfold to_cp. apply in_map. exact I. }
+  split; [|apply to_cp_id; exact Id].
+  unfold is_ascii. apply forallb_forall. intros u I. pose proof (Id u I) as E.
+  destruct (Hall (u2c u)) as [A|A]; [unfold to_cp; apply in_map; exact I | |].
+  - apply allowable_not in A. rewrite E in A. apply andb_true_iff. split; [apply Z.leb_le | apply Z.ltb_lt]; lia.
+  - rewrite E in A. subst u. reflexivity.
+Qed.
+
+Lemma legal_from_parts f t e : is_special f = false -> dos_splitext f = (t, e) ->
+  (length t <= 8)%nat -> (length e <= 3)%nat -> t = strip t -> e = strip e ->
+  (forall c, In c t -> allowable c = true) -> (forall c, In c e -> allowable c = true) ->
+  dos_is_legal_name f = true.
+Proof.
+  intros Hs E L1 L2 S1 S2 A1 A2. unfold dos_is_legal_name. rewrite Hs, E.
+  apply Nat.leb_le in L1. apply Nat.leb_le in L2. rewrite L1, L2. simpl.
+  rewrite <- S1, <- S2, !seqb_refl. simpl.
+  apply andb_true_iff. split; apply forallb_forall; assumption.
+Qed.
+
+Lemma splitext_entry T E : ~ In c_dot T ->
+  dos_splitext (T ++ match E, T with _ :: _, _ => [c_dot] | [], [] => [c_dot] | [], _ :: _ => [] end ++ E) = (T, E).
+Proof.
+  intro H. destruct E as [|x E'].
+  - destruct T as [|y T']; [reflexivity|]. rewrite !app_nil_r. unfold dos_splitext.
+    rewrite (split_first_none c_dot (y :: T') H). reflexivity.
+  - unfold dos_splitext. simpl app. rewrite (split_first_some c_dot T (x :: E') H). reflexivity.
+Qed.
+
+(* a FILES entry is a legal DOS name exactly when the host name is one (names without the two odd code points) *)
+Theorem entry_legal_iff f : cp_clean f ->
+  (dos_is_legal_name (display_name f) = true <-> (is_ascii f = true /\ dos_is_legal_name f = true)).
+Proof.
+  intro Hc. split.
+  - intro HD. destruct (is_ascii f && dos_is_legal_name f) eqn:AL; [apply andb_true_iff in AL; exact AL|]. exfalso.
+    rewrite (display_other f AL) in HD.
+    pose proof (splitext_nodot (to_cp f)) as Tnd.
+    pose proof (splitext_rebuild (to_cp f)) as Reb.
+    destruct (dos_splitext (to_cp f)) as [t e] eqn:SE. unfold dos_splitext in SE.
+    destruct (split_first c_dot (to_cp f)) as [t0 oe]. injection SE as St Se. subst t0. simpl in Tnd.
+    assert (Tc : ~ In c_dot (clip_t t)) by (apply clip_t_nodot; exact Tnd).
+    assert (Chars : forall b, In b (to_cp f) -> In b t \/ b = c_dot \/ In b e).
+    { intros b I. rewrite Reb in I. apply in_app_or in I as [I|I]; [left; exact I|].
+      destruct oe as [e0|]; [|inversion I]. subst e. destruct I as [I|I]; [right; left; symmetry; exact I | right; right; exact I]. }
+    (* whenever f turns out plain, it is an ASCII name equal to its code-page form: then it must be illegal *)
+    assert (Fin : plain f -> is_ascii f = true /\ to_cp f = f /\ dos_is_legal_name f = false).
+    { intro P. destruct (plain_id f Hc P) as [A Idf]. rewrite A in AL. simpl in AL. tauto. }
+    set (dotp := match clip_e e, clip_t t with _ :: _, _ => [c_dot] | [], [] => [c_dot] | [], _ :: _ => [] end) in *.
+    destruct (is_special (clip_t t ++ dotp ++ clip_e e)) eqn:Dsp.
+    + (* the entry is "." or "..": then f is "", "." or "..", which are legal *)
+      apply is_special_spec in Dsp.
+      assert (Tn : t = []).
+      { destruct (clip_t t) as [|x t'] eqn:Ct; [apply clip_t_nil; exact Ct|].
+        exfalso. destruct Dsp as [D|D]; injection D as D _; subst x; apply Tc; left; reflexivity. }
+      subst t. change (clip_t []) with (@nil Z) in *. 
+      assert (Edot : dotp = [c_dot]) by (unfold dotp; destruct (clip_e e); reflexivity).
+      rewrite Edot in Dsp. simpl in Dsp.
+      assert (Ee : e = [] \/ e = [c_dot]).
+      { destruct Dsp as [D|D]; injection D as D; [left; apply clip_e_nil; exact D | right; apply clip_e_dot; exact D]. }
+      assert (P : plain f).
+      { intros b I. right. destruct (Chars b I) as [[]|[B|B]]; [exact B|].
+        destruct Ee as [Ee|Ee]; rewrite Ee in B; [inversion B | destruct B as [B|[]]; symmetry; exact B]. }
+      destruct (Fin P) as (_ & Idf & Lf). rewrite Idf in Reb. simpl in Reb.
+      assert (Ff : f = [] \/ f = s_dot \/ f = s_dotdot).
+      { destruct oe as [e0|]; subst e; [|left; exact Reb].
+        destruct Ee as [Ee|Ee]; subst e0; [right; left; exact Reb | right; right; exact Reb]. }
+      destruct Ff as [Ff|[Ff|Ff]]; rewrite Ff in Lf; vm_compute in Lf; discriminate Lf.
+    + (* a legal, non-special entry *)
+      pose proof (legal_parts _ Dsp HD) as LP.
+      assert (SplitD : dos_splitext (clip_t t ++ dotp ++ clip_e e) = (clip_t t, clip_e e)) by (apply splitext_entry; exact Tc).
+      rewrite SplitD in LP. destruct LP as (L1 & L2 & S1 & S2 & A1 & A2).
+      assert (Ct : clip_t t = t).
+      { unfold clip_t in *. destruct (Nat.ltb 8 (length t)); [|reflexivity]. exfalso.
+        assert (X : allowable 43 = true) by (apply A1; apply in_or_app; right; left; reflexivity). vm_compute in X. discriminate X. }
+      assert (Ce : clip_e e = e).
+      { unfold clip_e in *. destruct (Nat.ltb 3 (length e)); [|reflexivity]. exfalso.
+        assert (X : allowable 43 = true) by (apply A2; apply in_or_app; right; left; reflexivity). vm_compute in X. discriminate X. }
+      rewrite Ct in *. rewrite Ce in *.
+      assert (P : plain f).
+      { intros b I. destruct (Chars b I) as [B|[B|B]]; [left; apply A1, B | right; exact B | left; apply A2, B]. }
+      destruct (Fin P) as (_ & Idf & Lf).
+      destruct (is_special f) eqn:Sf.
+      * apply is_special_spec in Sf as [Sf|Sf]; rewrite Sf in Lf; vm_compute in Lf; discriminate Lf.
+      * assert (SEf : dos_splitext f = (t, e)).
+        { rewrite <- Idf. unfold dos_splitext. rewrite Reb.
+          destruct oe as [e0|]; subst e.
+          - rewrite (split_first_some c_dot t e0 Tnd). reflexivity.
+          - rewrite app_nil_r. rewrite (split_first_none c_dot t Tnd). reflexivity. }
+        rewrite (legal_from_parts f t e Sf SEf L1 L2 S1 S2 A1 A2) in Lf. discriminate.
+  - intros [A L]. rewrite (display_legal f A L).
+    destruct (is_special f) eqn:S.
+    + unfold dos_normalise_name. rewrite S. exact L.
+    + apply legal_norm_legal; assumption.
+Qed.
+
+(* the exception is real: a file named with U+212A KELVIN SIGN is listed as the legal entry K *)
+Lemma kelvin_entry : display_name [8490] = [75] /\ dos_is_legal_name [75] = true /\ is_ascii [8490] = false.
+Proof. vm_compute. repeat split. Qed.
